@@ -756,7 +756,13 @@ impl ObjectWrite for Content {
             let obj = self.parts[0].to_primitive(update)?;
             update.create(obj)?.to_primitive(update)
         } else {
-            self.parts.to_primitive(update)
+            // a content stream is always an indirect object: an array of references to the parts
+            let mut refs = Vec::with_capacity(self.parts.len());
+            for part in self.parts.iter() {
+                let obj = part.to_primitive(update)?;
+                refs.push(update.create(obj)?.to_primitive(update)?);
+            }
+            Ok(Primitive::Array(refs))
         }
     }
 }
